@@ -28,17 +28,23 @@ def run(rep, tier, seed, replay_file=None):
     f_cells = gens.submit(L.cells, rep)
     # 3. model -> code: controllable schedules with what the property allows
     f_behs = gens.submit(L.gen, rep, "Ctl_wg_matrix.cfg", "option x kind x collector matrix on every construct (k=1, n=3, failure at any position)")
-    f_edge = gens.submit(L.gen, rep, "Ctl_wg_edge.cfg" if quick else "Ctl_wg_edge_full.cfg",
-                         "one shortest schedule per terminal edge of the abstract state graph: every reachable (fault script, held set)")
+    f_edge = gens.submit(L.gen, rep, "Ctl_wg_edge.cfg",
+                         "one shortest schedule per terminal edge of the abstract state graph: every reachable (fault script, held set), "
+                         "pp/map/gen, n<=4, k<=3, <=2 failing items (err/skip/eof)")
+    f_edge2 = None if quick else gens.submit(
+        L.gen, rep, "Ctl_wg_edge_full.cfg", "the same for all five constructs, n<=5, five failure kinds (a seeded sample is replayed)", timeout=1500)
     f_abort = gens.submit(L.gen, rep, "Ctl_wg_abort.cfg", "abort mode with inputs long enough (n >= 2k+1) for 'k more items' and 'the rest of the input' to differ")
-    f_sim = gens.submit(L.gen, rep, "Ctl_wg_sim.cfg", "random schedules n <= 8, k <= 4", simulate=dict(num=200 if quick else 4000), depth=16, seed=seed)
+    f_sim = gens.submit(L.gen, rep, "Ctl_wg_sim.cfg", "random schedules n <= 8, k <= 4", simulate=dict(num=150 if quick else 4000), depth=16, seed=seed)
     binary = harness.build(L.BINARY)
     cells, behs, edge, abort, sim = f_cells.result(), f_behs.result(), f_edge.result(), f_abort.result(), f_sim.result()
-    gens.shutdown()
     if quick:
-        behs, edge, abort = L.sample(behs, 1200, seed), L.sample(edge, 900, seed), L.sample(abort, 400, seed)
+        behs, edge, abort = L.sample(behs, 1000, seed), L.sample(edge, 800, seed), L.sample(abort, 300, seed)
     else:
-        rep.cov["exhaustive"] = True   # the matrix and the edge cover are replayed completely
+        # finite spaces enumerated completely: the option x kind x collector x construct matrix, every terminal edge of
+        # the abstract graphs of Ctl_wg_edge.cfg and Ctl_wg_abort.cfg (the n<=5 graph and the random schedules are samples)
+        rep.cov["exhaustive"] = True
+        edge = edge + L.sample(f_edge2.result(), 12000, seed)
+    gens.shutdown()
     behs = replay.dedupe(behs + edge + abort + sim)
     if not cells or not behs:
         f_impl.result(); f_muts.result()
@@ -60,7 +66,7 @@ def run(rep, tier, seed, replay_file=None):
         if r and r.get("ok") and not r.get("inconclusive") and r.get("hist"):
             hists.append(r["hist"])
             origin[id(r["hist"])] = dict(item=it, mode="replay", judge="trace")
-    nrec = 120 if quick else 2000
+    nrec = 100 if quick else 2000
     free = L.record(rep, binary, nrec, seed)
     for h in free:
         origin[id(h)] = dict(record=[nrec, seed])
@@ -83,7 +89,7 @@ def run(rep, tier, seed, replay_file=None):
         "cells = all 11 failure kinds x 2^4 options of ErrContract, each replayed on the four real recover wrappers + "
         "CanContinueOnError (reported? continue? against Contract).  behaviours = driver schedules of WgErrCtl (complete option x "
         "kind x collector matrix on pp/pfe/worker/map/gen with one worker; one schedule per terminal edge of the abstract graph "
-        "for n<=4 (thorough 5), k<=3, <=2 failing items; abort scenarios n=5..8, k=2..3; random n<=8,k<=4; quick tier: seeded "
+        "for n<=4, k<=3, <=2 failing items (thorough: plus a sample of the n<=5 / five-kind / five-construct graph); abort scenarios n=5..8, k=2..3; random n<=8,k<=4; quick tier: seeded "
         "samples) replayed with gated user functions that return / panic as scripted; after every step the real construct runs "
         "to quiescence; at the end the errors.Is table of the result (returned error / Close()) is compared with what the spec "
         "allows for the failures that occurred (must be found / never found / nil iff), items processed at most once, exactly "
